@@ -40,6 +40,7 @@ def gen_case(rng: random.Random, tier: str) -> dict:
         "max_iterations": rng.choice([None, None, 6, 10]) if g["seeds"] else None,
         "pair_seed": rng.randrange(1 << 30),
         "top_map": rng.random() < 0.3,
+        "explicit_select": rng.random() < 0.3,  # select=<all data outputs>, on_missing="error": must not change how failures surface
         "tier": tier,
         "only_points": None,
     }
@@ -162,6 +163,12 @@ def run_case(doc: dict) -> dict:
     kw0 = {}
     if doc.get("max_iterations"):
         kw0["max_iterations"] = doc["max_iterations"]
+    kwsel = {}
+    if doc.get("explicit_select"):
+        emits0 = _emit_names(g)
+        names = [o for nd in g["nodes"] for o in _top_outs(nd) if o not in emits0]
+        if names:
+            kwsel = {"select": list(dict.fromkeys(names)), "on_missing": "error"}
     viol: list = []
     rts = []
     try:
@@ -224,7 +231,7 @@ def run_case(doc: dict) -> dict:
         for mode, eh, cfg in variants:
             label = f"{mode}_{eh}"
             v_mark = len(viol)
-            w = run_world(g, values, mode=mode, cfg=cfg, faults=copy.deepcopy(faults), run_kwargs=dict(kw0, error_handling=eh))
+            w = run_world(g, values, mode=mode, cfg=cfg, faults=copy.deepcopy(faults), run_kwargs=dict(kw0, error_handling=eh, **kwsel))
             rts.append(w["rt"])
             res["runs"] += 1
             sim_stats(res, w["out"])
@@ -285,6 +292,11 @@ def _top_map(doc, g, values, points, rng, res, rts, viol, kw0) -> None:
         for eh in ("raise", "continue"):
             faults = [{"kind": "raise", "node": n, "inv": i, "fid": 0, "when": "before"}]
             kw = {"map_over": mp, "error_handling": eh}
+            if doc.get("explicit_select"):
+                emits0 = _emit_names(g)
+                names = [o for nd in g["nodes"] for o in _top_outs(nd) if o not in emits0]
+                if names:
+                    kw.update({"select": list(dict.fromkeys(names)), "on_missing": "error"})
             w = run_world(g, vals, mode=mode, cfg=cfg, faults=faults, run_kwargs=kw, op="map")
             rts.append(w["rt"])
             res["runs"] += 1
